@@ -188,6 +188,16 @@ def step (line : String) : String :=
       let show_ : Cli.Decision → String
         | .usageError => "usage-error" | .accept => "accept" | .internalError => "internal-error"
       (Json.mkObj [("ok", Json.str (show_ (Cli.syncDecide x))), ("old", Json.str (show_ (Cli.syncDecideOld x)))]).compress
+    | .ok "pair_args" =>
+      let strs (k : String) : List String := match j.getObjVal? k with
+        | .ok (Json.arr a) => a.toList.filterMap fun x => match x with | Json.str s => some s | _ => none
+        | _ => []
+      let opts (k : String) : List (Option String) := match j.getObjVal? k with
+        | .ok (Json.arr a) => a.toList.map fun x => match x with | Json.str s => some s | _ => none
+        | _ => []
+      let out := Sig.pairArgs (strs "args") (opts "defaults") ++ Sig.pairArgs (strs "kwonly") (opts "kw_defaults")
+      (Json.mkObj [("ok", Json.arr (out.map fun (n, d) =>
+        Json.arr #[Json.str n, match d with | some t => Json.str t | none => Json.null]).toArray)]).compress
     | .ok "param2ast" =>
       let pr := paramOfJson ((j.getObjVal? "param").toOption.getD Json.null)
       (resJson (ClassAttr.param2ast pr) fun a =>
